@@ -31,19 +31,33 @@ REQUIRE = {"container_succeeded": 500, "container_failed": 200, "suspension_fini
 
 def cases(tier, seed, shard, nshards):
     rng = rng_for(ID, seed, shard)
+    if tier == "thorough" or shard < 3:
+        for _b in range(1 if tier == "quick" else 2):
+            yield _exec.busy_case(rng, 4500 if tier == "quick" else 9000, p_suspend=0.15)
     for i in range(N_MIX[tier]):
         kw = dict(steps=rng.choice([30, 60, 120]), p_bad=rng.choice([0.0, 0.02, 0.05]),
                   bad_kinds=["oversell-cpu", "oversell-ram", "oversell-cpu", "oversell-ram", "suspend-mid", "unknown-pool"],
                   integer_sizes=rng.random() < 0.6, p_suspend=rng.choice([0.0, 0.3, 0.8]),
                   mem_heavy=rng.random() < 0.5, p_unready=0.0)
-        if tier == "thorough" and i % 1500 == 0:
-            kw.update(steps=8000, p_bad=0.0, integer_sizes=False, npipes=40, drain=2000)  # drift
+        if (tier == "thorough" and i % 1500 == 0) or (tier == "quick" and i == 7 and shard < 6):
+            # drift / long history: pool tick counters beyond 4096, > 1000 exits per pool, suspensions throughout
+            kw.update(steps=9000 if tier == "thorough" else 5000, p_bad=0.0, integer_sizes=rng.random() < 0.5, npipes=1500, drain=2000, mem_heavy=False,
+                      p_suspend=0.6, multi=True, tps=rng.choice([20, 100, 1000]), pools=rng.choice([1, 2]))
         yield _exec.mix_case(rng, i, **kw)
     from . import _sim
     for i in range(N_SIM[tier]):
         yield _sim.random_sim_case(rng, kind="sim", small=True, algos=_sim.ALGOS_PLUS)
     if tier == "thorough" and shard < 4:
         yield _sim.regression_case(shard)
+    # scale cases: large in one dimension (one per shard for the first shards; all of them, twice, in the thorough tier)
+    _kinds = ["many-small", "storm", "many-small"]
+    for _j, _kd in enumerate(_kinds * (1 if tier == "quick" else 2)):
+        if tier == "thorough" or _j == shard:
+            _k, _, _a = _kd.partition(":")
+            yield _sim.scale_case(rng, _k, algo=_a or None)
+    if tier == "thorough":
+        for _k in range(2):
+            yield _sim.long_sim_case(rng, algos=_sim.ALGOS_PLUS)
 
 
 def run_case(case, mon):
